@@ -336,7 +336,8 @@ class CSSSerializer:
         if self.prefs.defaultAtKeyword:
             return rule.atkeyword  # default
         else:
-            return rule._keyword
+            # a rule which was not parsed has no literal keyword
+            return getattr(rule, '_keyword', None) or rule.atkeyword
 
     def _indentblock(self, text, level):
         """
@@ -725,7 +726,7 @@ class CSSSerializer:
         """
         if rule.wellformed and self.prefs.keepUnknownAtRules:
             out = Out(self)
-            out.append(rule.atkeyword)
+            out.append(self._atkeyword(rule))
 
             stacks = []
             for item in rule.seq:
